@@ -113,18 +113,129 @@ func byteVal(t *term.Term) value {
 	return symv{t, false}
 }
 
+// wholeHex recognises the lowercase hex rendering of one wide term (e.g. a digest) and returns that term.
+func wholeHex(bs []value) (*term.Term, bool) {
+	if len(bs) < 8 || len(bs)%2 != 0 {
+		return nil, false
+	}
+	w := 4 * len(bs)
+	var base *term.Term
+	for i, b := range bs {
+		sv, ok := b.(symv)
+		if !ok {
+			return nil, false
+		}
+		nib, ok := hexProv[sv.t]
+		if !ok || nib.Op != "extract" || nib.Args[0].Sort.W != w {
+			return nil, false
+		}
+		if nib.P1 != w-1-4*i || nib.P2 != w-4-4*i {
+			return nil, false
+		}
+		if base == nil {
+			base = nib.Args[0]
+		} else if base != nib.Args[0] {
+			return nil, false
+		}
+	}
+	return base, true
+}
+
+func hexConstTerm(bs []value) (*term.Term, bool) {
+	var parts []*term.Term
+	for _, b := range bs {
+		c, ok := b.(byte)
+		if !ok {
+			return nil, false
+		}
+		var v byte
+		switch {
+		case c >= '0' && c <= '9':
+			v = c - '0'
+		case c >= 'a' && c <= 'f':
+			v = c - 'a' + 10
+		default:
+			return nil, false
+		}
+		parts = append(parts, term.Const(4, uint64(v)))
+	}
+	return term.ConcatN(parts), true
+}
+
 func bytesEqTerm(a, b []value) *term.Term {
 	if len(a) != len(b) {
 		return term.False
 	}
+	if wa, ok := wholeHex(a); ok {
+		if wb, ok := wholeHex(b); ok {
+			return term.Eq(wa, wb)
+		}
+		if cb, ok := hexConstTerm(b); ok {
+			return term.Eq(wa, cb)
+		}
+	} else if wb, ok := wholeHex(b); ok {
+		if ca, ok := hexConstTerm(a); ok {
+			return term.Eq(wb, ca)
+		}
+	}
 	r := term.True
 	for i := range a {
-		r = term.And(r, term.Eq(byteTerm(a[i]), byteTerm(b[i])))
+		r = term.And(r, byteEqTerm(byteTerm(a[i]), byteTerm(b[i])))
 		if r.IsFalse() {
 			break
 		}
 	}
 	return r
+}
+
+// byteEqTerm: equality of two byte terms; hex-digit characters produced by formatting are compared
+// through their nibbles (the formatting is injective), which keeps digests comparable without
+// reasoning through the character arithmetic.
+func byteEqTerm(x, y *term.Term) *term.Term {
+	if x == y {
+		return term.True
+	}
+	nx, xLow := hexProv[x]
+	nxU, xUp := hexProvUpper[x]
+	ny, yLow := hexProv[y]
+	nyU, yUp := hexProvUpper[y]
+	switch {
+	case xLow && yLow:
+		return term.Eq(nx, ny)
+	case xUp && yUp:
+		return term.Eq(nxU, nyU)
+	case xLow && y.IsConst():
+		return hexConstEq(nx, byte(y.Val), false)
+	case xUp && y.IsConst():
+		return hexConstEq(nxU, byte(y.Val), true)
+	case yLow && x.IsConst():
+		return hexConstEq(ny, byte(x.Val), false)
+	case yUp && x.IsConst():
+		return hexConstEq(nyU, byte(x.Val), true)
+	}
+	if y.IsConst() && !refinedSet(x).has(byte(y.Val)) {
+		return term.False
+	}
+	if x.IsConst() && !refinedSet(y).has(byte(x.Val)) {
+		return term.False
+	}
+	return term.Eq(x, y)
+}
+
+func hexConstEq(nib *term.Term, c byte, upper bool) *term.Term {
+	v := -1
+	switch {
+	case c >= '0' && c <= '9':
+		v = int(c - '0')
+	case !upper && c >= 'a' && c <= 'f':
+		v = int(c-'a') + 10
+	case upper && c >= 'A' && c <= 'F':
+		v = int(c-'A') + 10
+	}
+	if v < 0 {
+		return term.False
+	}
+	return term.Eq(nib, term.Const(4, uint64(v)))
 }
 
 func strEq(x, y value) *term.Term { return bytesEqTerm(toBytes(x), toBytes(y)) }
@@ -211,13 +322,30 @@ func registerUF(kind, fn string, app *term.Term, args []*term.Term) {
 func ufHash(name string, bits int, msg []value) []value {
 	if allConcrete(msg) {
 		bs := concreteBytes(msg)
+		var dig []byte
 		switch name {
 		case "md5":
 			d := md5.Sum(bs)
-			return bytesToValues(d[:])
+			dig = d[:]
 		case "sha1":
 			d := sha1.Sum(bs)
-			return bytesToValues(d[:])
+			dig = d[:]
+		}
+		if dig != nil {
+			// concrete digests take part in the collision-freeness axioms too
+			var dts, ats []*term.Term
+			for _, c := range dig {
+				dts = append(dts, term.Const(8, uint64(c)))
+			}
+			for _, c := range bs {
+				ats = append(ats, term.Const(8, uint64(c)))
+			}
+			var args []*term.Term
+			if len(ats) > 0 {
+				args = []*term.Term{term.ConcatN(ats)}
+			}
+			registerUF(name, fmt.Sprintf("uf_%s_%d", name, len(msg)), term.ConcatN(dts), args)
+			return bytesToValues(dig)
 		}
 	}
 	var app *term.Term
@@ -233,6 +361,7 @@ func ufHash(name string, bits int, msg []value) []value {
 		app = term.UF(fn, term.BV(bits), arg)
 		registerUF(name, fn, app, []*term.Term{arg})
 	}
+
 	out := make([]value, bits/8)
 	for i := range out {
 		hi := bits - 1 - 8*i
